@@ -49,7 +49,7 @@ def plan(tier, seed):
             cases.append({"kind": "corpus", "name": name, "seed": "%d/C01/corpus/%s/%d" % (seed, name, r), "ticks": 150 if tier == "quick" else 300})
     n = 520 if tier == "quick" else 9000
     for k in range(n):
-        cls = ["closed", "closed", "closed", "hostile"][k % 4]
+        cls = ["closed-unsigned", "closed-mixed", "closed-unsigned", "hostile"][k % 4]
         cases.append({"kind": "gen", "cls": cls, "wide": k % 11 == 0, "seed": "%d/C01/gen/%s/%d" % (seed, cls, k), "ticks": 60})
     ns = 64 if tier == "quick" else 192
     return [{"id": "tv%03d" % i, "cls": "tv", "cases": cases[i::ns]} for i in range(ns)]
@@ -99,6 +99,10 @@ def compare_design(build, rng, nticks, two_clock_sched=None, regular_comb=True, 
     nameA = {i: out.ns.get_name(s) for i, s in enumerate(sigsA)}
     mem_names = [out.ns.get_name(m_) for m_ in memsA]
     vs = VerilogSim(text, dict(out.data_files))
+    # undriven inputs start at the value the FHDL simulator gives them (their reset value) until the bench drives them
+    for s_ in inputsA:
+        vs.val[out.ns.get_name(s_)] = s_.reset.value & ((1 << len(s_)) - 1)
+    vs.settle()
     ninst = len(vs.m["instances"])
     # ---- instance B: simulate
     topB, extraB = build()
@@ -131,6 +135,8 @@ def compare_design(build, rng, nticks, two_clock_sched=None, regular_comb=True, 
             for k, s in enumerate(inputsA):
                 if idxA[s] in rst_idx and s is not (rsts[0] if rsts else None):
                     v[k] = 0
+                if nameA[idxA[s]].endswith("replace"):
+                    v[k] = 0          # SyncFIFO.replace without a previous write addresses word -1 (outside the memory)
     # clock schedule: tick t -> set of rising design domains
     if len(domains) > 1:
         sched = [set(d for d in domains if rng.random() < 0.6) or {rng.choice(domains)} for _ in range(nticks + 2)]
@@ -161,8 +167,6 @@ def compare_design(build, rng, nticks, two_clock_sched=None, regular_comb=True, 
                 if a != b:
                     mism.append({"tick": t, "signal": nameA[i], "fhdl_sim": a, "verilog": b, "width": len(sB), "signed": sB.signed,
                                  "index": i})
-                    if len(mism) >= 4:
-                        break
             if self.prev is not None:
                 for i in cmp_idx:
                     if v[sigsB[i]] != self.prev[sigsB[i]]:
@@ -202,7 +206,15 @@ def compare_design(build, rng, nticks, two_clock_sched=None, regular_comb=True, 
     bench.add(tb, "tbclk")
     bench._force_primary = "tbclk"
     bench.run()
-    return {"mism": mism[:3], "ticks": stats["ticks"], "vals": stats["vals"], "memw": stats["memw"], "changed": len(stats["changed"]),
+    from lib.vsim import classify
+    cls_ = None
+    if mism:
+        names = [m_["signal"].split("[")[0] for m_ in mism]
+        if classify.multi_clock_memory(vs):
+            cls_ = "multi-clock-memory-emitted-read-first"
+        elif classify.width_sensitive_arith(vs, names):
+            cls_ = "intermediate-overflow(arith-under-width-sensitive-operator)"
+    return {"classified": cls_, "nmism": len(mism), "mism": mism[:3], "ticks": stats["ticks"], "vals": stats["vals"], "memw": stats["memw"], "changed": len(stats["changed"]),
             "nsig": len(cmp_idx), "nmem": len(memsA), "instances": ninst, "lines": text.count("\n"), "text_tail": None,
             "domains": domains}
 
@@ -216,7 +228,7 @@ def run_case(case):
         r["program"] = case["name"]
         r["hostile_targets"] = []
         return r
-    g = fhdlgen.Gen(rng, hostile=(case["cls"] == "hostile"), wide=case.get("wide", False))
+    g = fhdlgen.Gen(rng, cls=case["cls"], wide=case.get("wide", False))
     spec = case.get("spec") or g.design()
 
     def b():
@@ -233,6 +245,19 @@ def run_case(case):
 
 
 def run_shard(shard):
+    # deeply nested expressions (ECC XOR trees) need a deep recursive-descent parse: run in a thread with a large stack
+    import sys
+    import threading
+    out = {}
+    sys.setrecursionlimit(200000)
+    threading.stack_size(512 * 1024 * 1024)
+    t = threading.Thread(target=lambda: out.setdefault("r", _run_shard(shard)))
+    t.start()
+    t.join()
+    return out["r"]
+
+
+def _run_shard(shard):
     col = Collector(shard["cls"])
     fails, nvec = vselftest.run()
     if fails:
@@ -255,13 +280,12 @@ def run_shard(shard):
         col.count("disagreements", len(r["mism"]) and 1)
         if r["mism"]:
             m0 = r["mism"][0]
+            what = r["classified"] or ("memory-word" if m0.get("memory") else "signal")
             if case["kind"] == "corpus":
-                key = "corpus/%s/%s" % (case["name"].split(":")[0], "memory-word" if m0.get("memory") else "signal")
+                key = "corpus/%s" % what if r["classified"] else "corpus/%s/%s" % (case["name"].split(":")[0], what)
             else:
-                hostile = m0["signal"] in r["hostile_targets"] or any(m0["signal"].startswith(x + "_") for x in r["hostile_targets"])
-                key = "generated-%s/%s" % (case["cls"], "memory-word" if m0.get("memory") else
-                                            ("arith-under-width-sensitive-operator" if hostile else "signal"))
-            wit = {"mismatches": r["mism"]}
+                key = "generated-%s/%s" % (case["cls"], what)
+            wit = {"mismatches": r["mism"], "signals_disagreeing_in_that_tick": r["nmism"]}
             if case["kind"] == "gen":
                 wit["spec"] = r["spec"]
             col.violation(key, dict(case, spec=r.get("spec")) if case["kind"] == "gen" else case,
